@@ -6,10 +6,15 @@
     op 4 key              Peek   -> 5=value 6=ok
     op 5 key              Remove
     op 6                  Clear
+    op 7 key value size   HasOrAdd -> 4=has (it is c.Has(key)) 7=[ has added ]
+    op 8                  Close  -> 8=error class of db.Close() (0 = nil)
+    op 9                  SizeInBytesContained -> 9=bytes
+    op 10                 MaxSize -> 18=math.MaxInt64
     after EVERY op: 10=cacher.Keys() (exact order) 11=cacher.Len() 12=cacher.SizeInBytesContained()
       13=[ [key value] ... ] persister contents, sorted by key
       14=[ adapter.Peek(k) for k in alphabet ] 15=[ adapter.Has(k) for k in alphabet ]
-      16=adapter.Len() 17=adapter.Keys() sorted *)
+      16=adapter.Len() 17=adapter.Keys() sorted 19=dbIsClosed as the harness knows it (a Close was executed)
+    (13 is a direct read of the memorydb, which memorydb.Close leaves readable) *)
 From Coq Require Import List NArith ZArith Bool.
 From Verif Require Import Base.Generic Base.BStr Lru.LruTypes Lru.CapacityLru Lru.Adapter.
 Import ListNotations.
@@ -35,6 +40,10 @@ Definition decode_aop (code : N) (args : list garg) : option aop :=
   | 4 => Some (APeek k)
   | 5 => Some (ARemove k)
   | 6 => Some AClear
+  | 7 => Some (AHasOrAdd k (arg_B (nth_arg args 1)) (arg_Z (nth_arg args 2)))
+  | 8 => Some AClose
+  | 9 => Some ASizeInBytesContained
+  | 10 => Some AMaxSize
   | _ => None
   end.
 
@@ -47,6 +56,10 @@ Definition encode_aret (r : aret) : list obs :=
   | ARHas b => [(4, g_bool b)]
   | ARPeek v => [(5, g_optB v); (6, g_ok v)]
   | ARNone => []
+  | ARHasOrAdd h ad => [(4, g_bool h); (7, GL [g_bool h; g_bool ad])]
+  | ARClose => [(8, GN 0%Z)]
+  | ARSize n => [(9, GN n)]
+  | ARMaxSize n => [(18, GN n)]
   end.
 
 Fixpoint pinsert (x : bytes * bytes) (l : list (bytes * bytes)) : list (bytes * bytes) :=
@@ -71,7 +84,8 @@ Definition ad_step (s : ad_state) (code : N) (args : list garg) : ad_state * lis
          (14, GL (map (fun k => g_optB (ad_Peek a' k)) alpha));
          (15, GL (map (fun k => g_bool (ad_Has a' k)) alpha));
          (16, GN (ad_Len a'));
-         (17, g_listB (bsort (ad_Keys a'))) ])
+         (17, g_listB (bsort (ad_Keys a')));
+         (19, g_bool (dbIsClosed a')) ])
   end.
 
 Definition adapter_component : component :=
